@@ -125,6 +125,13 @@ class EntitySubstitution(object):
     #: :meta hide-value:
     CHARACTER_TO_HTML_ENTITY_WITH_AMPERSAND_RE: Pattern[str]
 
+    #: A regular expression that matches, at the position where it is
+    #: applied, the name of any entity that HTML parsers recognize
+    #: even without a trailing semicolon ("amp", "lt", "copy"...).
+    #:
+    #: :meta hide-value:
+    SEMICOLON_OPTIONAL_ENTITY_RE: Pattern[str]
+
     @classmethod
     def _populate_class_variables(cls) -> None:
         """Initialize variables used by this class to manage the plethora of
@@ -154,6 +161,7 @@ class EntitySubstitution(object):
 
         short_entities = set()
         long_entities_by_first_character = defaultdict(set)
+        semicolon_optional_names = set()
 
         for name_with_semicolon, character in sorted(html5.items()):
             # "It is intentional, for legacy compatibility, that many
@@ -169,6 +177,7 @@ class EntitySubstitution(object):
                 name = name_with_semicolon[:-1]
             else:
                 name = name_with_semicolon
+                semicolon_optional_names.add(name)
 
             # When parsing HTML, we want to recognize any known named
             # entity and convert it to a sequence of Unicode
@@ -252,6 +261,9 @@ class EntitySubstitution(object):
 
         cls.CHARACTER_TO_HTML_ENTITY = unicode_to_name
         cls.HTML_ENTITY_TO_CHARACTER = name_to_unicode
+        cls.SEMICOLON_OPTIONAL_ENTITY_RE = re.compile(
+            "|".join(sorted(semicolon_optional_names))
+        )
         cls.CHARACTER_TO_HTML_ENTITY_RE = re.compile(re_definition)
         cls.CHARACTER_TO_HTML_ENTITY_WITH_AMPERSAND_RE = re.compile(
             re_definition_with_ampersand
@@ -270,6 +282,13 @@ class EntitySubstitution(object):
 
     # Matches any named or numeric HTML entity.
     ANY_ENTITY_RE = re.compile("&(#\\d+|#x[0-9a-fA-F]+|\\w+);", re.I)
+
+    #: Matches the longest string that html.parser would take for the
+    #: name of a named character reference.
+    ENTITY_NAME_RE = re.compile("[a-zA-Z][-.a-zA-Z0-9]*")
+
+    #: Matches an ampersand.
+    AMPERSAND_RE = re.compile("&")
 
     #: A regular expression matching an angle bracket or an ampersand that
     #: is not part of an XML or HTML entity.
@@ -304,6 +323,24 @@ class EntitySubstitution(object):
     @classmethod
     def _escape_entity_name(cls, matchobj: re.Match) -> str:
         return "&amp;%s;" % matchobj.group(1)
+
+    @classmethod
+    def _escape_ampersand_a_parser_would_interpret(cls, matchobj: re.Match) -> str:
+        """Escape an ampersand if an HTML parser would read it as the
+        start of a character reference -- with or without a trailing
+        semicolon. Any other ampersand is left alone."""
+        s = matchobj.string
+        after = matchobj.end()
+        if s.startswith("#", after) or cls.ANY_ENTITY_RE.match(s, matchobj.start()):
+            return "&amp;"
+        name = cls.ENTITY_NAME_RE.match(s, after)
+        if name is not None and (
+            s.startswith(";", name.end())
+            or name.group(0) in cls.HTML_ENTITY_TO_CHARACTER
+            or cls.SEMICOLON_OPTIONAL_ENTITY_RE.match(s, after)
+        ):
+            return "&amp;"
+        return "&"
 
     @classmethod
     def _escape_unrecognized_entity_name(cls, matchobj: re.Match) -> str:
@@ -446,8 +483,11 @@ class EntitySubstitution(object):
         :return: The string with some Unicode characters replaced with
            HTML entities.
         """
-        # First, escape any HTML entities found in the markup.
-        s = cls.ANY_ENTITY_RE.sub(cls._escape_entity_name, s)
+        # First, escape any ampersand that a parser would treat as
+        # the start of a character reference. That is anything that looks
+        # like an entity, but also the name of a known entity without
+        # its semicolon ("&lt x" is parsed as "< x") and "&#".
+        s = cls.AMPERSAND_RE.sub(cls._escape_ampersand_a_parser_would_interpret, s)
 
         # Next, convert any appropriate characters to unescaped HTML entities.
         s = cls.CHARACTER_TO_HTML_ENTITY_RE.sub(cls._substitute_html_entity, s)
